@@ -31,10 +31,11 @@ ALLOWED_AXIOMS = {"propext", "Classical.choice", "Quot.sound"}
 EXTRA_AXIOMS: dict[str, str] = {
     "C19_uniform_": r"MZ\.WProb\.table_\dx\d\._native\.native_decide\.ax_\w+|Lean\.ofReduceBool|Lean\.trustCompiler",
     "C19_full_partial_holds": r"MZ\.WProb\.table_\dx\d\._native\.native_decide\.ax_\w+|Lean\.ofReduceBool|Lean\.trustCompiler",
+    "C19_full_partial8_holds": r"MZ\.WProb\.table_\dx\d\._native\.native_decide\.ax_\w+|Lean\.ofReduceBool|Lean\.trustCompiler",
     "C19_every_tree_appears_": r"MZ\.WProb\.table_\dx\d\._native\.native_decide\.ax_\w+|Lean\.ofReduceBool|Lean\.trustCompiler"}
 FORBIDDEN = re.compile(r"\b(sorry|admit|native_decide|bv_decide|implemented_by|unsafe)\b|^axiom\s|maxHeartbeats\s+0\b")
 # files where `native_decide` is allowed (named in the trusted base)
-NATIVE_DECIDE_OK: set[str] = {"C19Tables.lean", "C19Table33.lean", "C19Table24.lean"}
+NATIVE_DECIDE_OK: set[str] = {"C19Tables.lean", "C19Table33.lean", "C19Table24.lean", "C19Table25.lean"}
 
 
 def sh(cmd, cwd=None, timeout=None, env=None):
